@@ -38,18 +38,30 @@ Proof.
   destruct (eff_cancelled_from (nscope s) s (k_cur (tasks s t))); reflexivity.
 Qed.
 
-(* while it spins, a resumption without a cancellation yields again; with one it raises it *)
+(* the walks only read the scope table *)
+Lemma ckif_spins_scopes fuel s s' : scopes s' = scopes s -> forall x, ckif_spins fuel s' x = ckif_spins fuel s x.
+Proof.
+  intros E. induction fuel as [|fu IH]; intros x; [reflexivity|].
+  destruct x as [c|]; cbn [ckif_spins]; [|reflexivity]. rewrite E. now rewrite IH.
+Qed.
+
+(* while it spins (F46: the walk is restarted from the task's own scope at every resumption): a resumption with a
+   cancellation raises it; one without yields again iff a cancelled scope is still visible from the task's current
+   scope, and returns normally otherwise *)
 Theorem ckif_spin_resume s t fo :
   k_ctl (tasks s t) = CYield YCkIf ->
   match snd (incoming s t fo) with
-  | None => snd (resume s t fo) = RBlocked
+  | None => snd (resume s t fo) =
+            if ckif_spins (nscope s) s (k_cur (tasks s t)) then RBlocked else RRet 0
   | Some e => snd (resume s t fo) = RExc e
   end.
 Proof.
   intros Hc. unfold resume. destruct (incoming s t fo) as [s1 inc] eqn:E. cbn [snd].
-  assert (Hc1 : k_ctl (tasks s1 t) = CYield YCkIf).
-  { unfold incoming in E. injection E as <- _. cbn. unfold upd_task; cbn. rewrite upd_same. cbn. exact Hc. }
-  rewrite Hc1. destruct inc; reflexivity.
+  assert (Hc1 : k_ctl (tasks s1 t) = CYield YCkIf /\ k_cur (tasks s1 t) = k_cur (tasks s t) /\
+                nscope s1 = nscope s /\ scopes s1 = scopes s).
+  { unfold incoming in E. injection E as <- _. cbn. unfold upd_task; cbn. rewrite upd_same. cbn. auto. }
+  destruct Hc1 as (Hc1 & Hk & Hn & Hs). rewrite Hc1. destruct inc; [reflexivity|].
+  rewrite Hk, Hn, (ckif_spins_scopes _ s s1 Hs). destruct (ckif_spins _ _ _); reflexivity.
 Qed.
 
 (* checkpoint() and cancel_shielded_checkpoint() always suspend *)
@@ -85,3 +97,38 @@ Example ex_ckif_shielded :
                             ANewScope 1 None true; AEnter 1 2; ACancel 1 1] in
   idle s 1 = true /\ snd (step s (ACkIf 1)) = RRet 0.
 Proof. vm_compute. auto. Qed.
+
+(* F46: the same at EVERY re-check of the spin.  When the loop runs the step callback of a task spinning in
+   checkpoint_if_cancelled and the task carries no cancellation request, the walk is restarted from the task's own
+   scope: it yields again iff that scope is (still) effectively cancelled, and returns normally otherwise -- it never
+   spins when nothing cancelled is visible (any state; no invariant needed). *)
+Theorem ckif_respin_iff_effectively_cancelled s t :
+  In (HStep t) (ready s) -> k_ctl (tasks s t) = CYield YCkIf -> k_must (tasks s t) = false ->
+  snd (step s (ARun (HStep t))) =
+    if eff_cancelled_from (nscope s) s (k_cur (tasks s t)) then RBlocked else RRet 0.
+Proof.
+  intros Hin Hc Hm. cbn [step actor]. unfold run_handle.
+  assert (Ex : existsb (handle_eqb (HStep t)) (ready s) = true).
+  { apply existsb_exists. exists (HStep t). split; [exact Hin|]. cbn. apply Nat.eqb_refl. }
+  rewrite Ex. cbn [negb]. set (s1 := set_ready s (remove_first (HStep t) (ready s))).
+  pose proof (ckif_spin_resume s1 t None Hc) as H.
+  assert (Ei : snd (incoming s1 t None) = None).
+  { unfold incoming. cbn [snd]. change (tasks s1 t) with (tasks s t). now rewrite Hm. }
+  rewrite Ei in H. rewrite H. rewrite ckif_spins_is_eff_cancelled.
+  change (nscope s1) with (nscope s). change (tasks s1 t) with (tasks s t).
+  now rewrite (eff_cancelled_from_scopes _ s s1 _ eq_refl).
+Qed.
+
+Corollary ckif_spin_released_when_nothing_visible s t :
+  In (HStep t) (ready s) -> k_ctl (tasks s t) = CYield YCkIf -> k_must (tasks s t) = false ->
+  eff_cancelled_from (nscope s) s (k_cur (tasks s t)) = false ->
+  snd (step s (ARun (HStep t))) = RRet 0.
+Proof. intros A B C D. rewrite (ckif_respin_iff_effectively_cancelled s t A B C), D. reflexivity. Qed.
+
+(* not vacuous, both ways: a task spinning under its own cancelled scope yields again (the delivery has not run yet);
+   after its scope is un-seen through a raised shield it returns *)
+Example ckif_respin_examples :
+  let s := final step init [ANewRoot; ANewScope 1 None false; AEnter 1 1; ACancel 1 1; ACkIf 1] in
+  In (HStep 1) (ready s) /\ k_ctl (tasks s 1) = CYield YCkIf /\ k_must (tasks s 1) = false /\
+  eff_cancelled_from (nscope s) s (k_cur (tasks s 1)) = true /\ snd (step s (ARun (HStep 1))) = RBlocked.
+Proof. vm_compute. repeat split; auto. Qed.
